@@ -6,13 +6,18 @@
    field values of ONE document; [tr] is the engine's fuzzy metric).  The correspondence check
    (Cursor/SemCorr.v + harness/cmd/c02) compares Index.Search with [sem] directly, under all 8
    request-option combinations; the theorems below say what kind of object [sem] is and tie its
-   compound rules down.  Request options do not occur in [sem] at all, so independence from
-   scoring / locations / explanations is a property of the correspondence, not a theorem here.
+   compound rules down.  Request options do not occur in [sem] at all; independence of the answer
+   from them is a property of the correspondence for the leaf searchers, and a theorem for the
+   compound searchers (C02_search_options_independent).
 
-   PLACEHOLDER (not an Admitted): the model-vs-spec theorem
-       search_correct : forall opts c q, run (build opts (reader_of c) q) = sem tr c q
-   is about the searcher state machines of Cursor/Machines*.v (property C08) and will be stated
-   and linked there once those machines exist; nothing in this file depends on it. *)
+   THE LINK to the searcher machines of property C08 (last section of this file; definitions in
+   Cursor/Link.v, proofs in Cursor/LinkProofs.v): [tree_of tr o c q] is the transcription of the
+   Searcher() methods of ConjunctionQuery / DisjunctionQuery / BooleanQuery — the tree of searchers
+   bleve builds for q under the request options o (leaf queries are cursors over their own meaning,
+   which is what C08's reader theorems and the correspondence establish) — and for every
+   [linkable] query the machine built for that tree enumerates exactly [sem tr c q], whatever the
+   options.  [linkable] excludes two shapes for which bleve and [sem] genuinely differ
+   (C02_link_negative_min_refuted, C02_link_single_min_refuted). *)
 From Coq Require Import ZArith List Bool Sorted.
 From Verif Require Import Common.Bytes Numeric.Model Cursor.Sem Cursor.SemProofsStr Cursor.SemProofs.
 Import ListNotations.
@@ -257,3 +262,109 @@ Print Assumptions C02_edits_length.
 Theorem C02_corpus_wfb_spec : forall c, corpus_wfb c = true <-> corpus_wf c.
 Proof. exact corpus_wfb_spec. Qed.
 Print Assumptions C02_corpus_wfb_spec.
+
+(* ---------- THE LINK: the searcher tree built for a query enumerates exactly sem ----------
+   Vocabulary (Cursor/Link.v): [options] = the request settings that steer the construction
+   (score "none", term vectors, which leaf searchers are Optimizable, DisjunctionHeapTakeover,
+   DisjunctionMaxClauseCount); [tree_of tr o c q] = the searcher tree of BooleanQuery /
+   ConjunctionQuery / DisjunctionQuery.Searcher (None = the clause-count error); [linkable q] =
+   no boolean node with both must and should clauses has min_should <= -1, and no disjunction /
+   should list with exactly one clause has int(min) >= 2.  From Cursor/Machines.v (C08):
+   [build t] = the searcher state machine of tree t, [run fuel s prog] = its results on a program
+   of Next / Advance calls, [denote t] = the tree's set expression, [wf t] = C08's hypothesis. *)
+From Verif Require Import Cursor.Cursor Cursor.Machines Cursor.MachProofsTree Cursor.Link
+  Cursor.LinkProofs Cursor.LinkExamples.
+
+(* the set expression of the tree IS the documented meaning (hypotheses inhabited:
+   LinkExamples.link_example, LinkProofs.tree_of_total) *)
+Theorem C02_denote_tree_of : forall tr o c q t,
+  tree_of tr o c q = Some t -> corpus_wf c -> linkable q = true -> denote t = sem tr c q.
+Proof. exact denote_tree_of. Qed.
+Print Assumptions C02_denote_tree_of.
+
+(* ... and the tree satisfies the hypothesis of C08's tree theorem *)
+Theorem C02_tree_of_wf : forall tr o c q t,
+  tree_of tr o c q = Some t -> corpus_wf c -> linkable q = true -> wf t.
+Proof. exact tree_of_wf. Qed.
+Print Assumptions C02_tree_of_wf.
+
+(* search_correct: the Next-only enumeration of the built searcher returns exactly sem tr c q, in
+   ascending order, and then nil *)
+Theorem C02_search_correct : forall tr o c q t,
+  tree_of tr o c q = Some t -> corpus_wf c -> linkable q = true ->
+  exists N, forall fuel, (N <= fuel)%nat ->
+    run fuel (build t) (repeat Next (S (length (sem tr c q)))) = Some (map Some (sem tr c q) ++ [None]).
+Proof. exact search_correct. Qed.
+Print Assumptions C02_search_correct.
+
+(* ... and stays exhausted however often Next is called again *)
+Theorem C02_search_exhausted : forall tr o c q t,
+  tree_of tr o c q = Some t -> corpus_wf c -> linkable q = true ->
+  forall k, exists N, forall fuel, (N <= fuel)%nat ->
+    run fuel (build t) (repeat Next (length (sem tr c q)) ++ Next :: repeat Next k)
+    = Some (map Some (sem tr c q) ++ None :: repeat None k).
+Proof. exact search_exhausted. Qed.
+Print Assumptions C02_search_exhausted.
+
+(* on EVERY program of Next / Advance calls the built searcher is the reference cursor over sem *)
+Theorem C02_search_cursor : forall tr o c q t,
+  tree_of tr o c q = Some t -> corpus_wf c -> linkable q = true ->
+  forall prog, exists N, forall fuel, (N <= fuel)%nat ->
+    run fuel (build t) prog = Some (run_spec (sem tr c q) prog).
+Proof. exact search_cursor. Qed.
+Print Assumptions C02_search_cursor.
+
+(* what a caller sees: no duplicate, no non-matching document, no matching document missing *)
+Theorem C02_search_sound_complete : forall tr o c q t,
+  tree_of tr o c q = Some t -> corpus_wf c -> linkable q = true ->
+  exists N, forall fuel, (N <= fuel)%nat ->
+    exists rs, run fuel (build t) (repeat Next (S (length (sem tr c q)))) = Some rs /\
+      StronglySorted Z.lt (somes rs) /\ NoDup (somes rs) /\
+      (forall n, In n (somes rs) <-> exists d, In d c /\ d_num d = n /\ matches tr d q = true).
+Proof. exact search_sound_complete. Qed.
+Print Assumptions C02_search_sound_complete.
+
+(* the answer is the same whether or not scoring (or anything else in the options) is requested *)
+Theorem C02_search_options_independent : forall tr c q o1 o2 t1 t2,
+  corpus_wf c -> linkable q = true ->
+  tree_of tr o1 c q = Some t1 -> tree_of tr o2 c q = Some t2 ->
+  denote t1 = denote t2 /\
+  forall prog, exists N, forall fuel, (N <= fuel)%nat ->
+    run fuel (build t1) prog = run fuel (build t2) prog /\
+    run fuel (build t1) prog = Some (run_spec (sem tr c q) prog).
+Proof. exact search_options_independent. Qed.
+Print Assumptions C02_search_options_independent.
+
+(* Searcher() fails only through DisjunctionMaxClauseCount (0 = unlimited in the source): the
+   hypothesis [tree_of ... = Some t] holds for every query, corpus and option setting *)
+Theorem C02_tree_of_total : forall tr c q o, max_clauses o = 0%nat -> exists t, tree_of tr o c q = Some t.
+Proof. exact tree_of_total. Qed.
+Print Assumptions C02_tree_of_total.
+
+(* the "conjunction" push-down that narrows term leaves inside a scoring conjunction (not part
+   of tree_of) cannot change a conjunction's answer *)
+Theorem C02_conj_pushdown_invariant : forall (B : Z -> Prop) ls ls',
+  Forall ascending ls -> Forall ascending ls' ->
+  (forall x, Forall (In x) ls -> B x) ->
+  Forall2 (fun l' l => l' = l \/ forall x, In x l' <-> In x l /\ B x) ls' ls ->
+  inter_all ls' = inter_all ls.
+Proof. exact conj_pushdown_invariant. Qed.
+Print Assumptions C02_conj_pushdown_invariant.
+
+(* outside [linkable] (1): must + should with min_should <= -1 — int(min) is a non-zero Min(), the
+   BooleanSearcher requires a should match that the documented reading does not *)
+Theorem C02_link_negative_min_refuted :
+  exists o c q t, corpus_wf c /\ tree_of true o c q = Some t /\ wf t /\ linkable q = false /\
+    denote t <> sem true c q.
+Proof. exact link_negative_min_refuted. Qed.
+Print Assumptions C02_link_negative_min_refuted.
+
+(* outside [linkable] (2): a one-clause disjunction with int(min) >= 2 inside an optimisable
+   compound — right with scoring, wrong (and different) under score "none" *)
+Theorem C02_link_single_min_refuted :
+  exists c q t1 t2, corpus_wf c /\ linkable q = false /\
+    tree_of true opts_scoring c q = Some t1 /\ tree_of true opts_score_none c q = Some t2 /\
+    wf t1 /\ wf t2 /\
+    denote t1 = sem true c q /\ denote t2 <> sem true c q.
+Proof. exact link_single_min_refuted. Qed.
+Print Assumptions C02_link_single_min_refuted.
